@@ -8,6 +8,13 @@
 (* the element type of every result value must be the one the inputs       *)
 (* determine, and in the float64 precision episodes (input v + 2^-29 K)    *)
 (* the 2^-29 part of the result must equal the specified result on K.      *)
+(* HISTORY episodes (kind = "hist"): ONE real transform object (obj = jac,  *)
+(* grad, aggjac = Aggregate o Jac, diag, stack of Selects, agg) was applied *)
+(* to several inputs in a row (batches of different row counts, any chunk   *)
+(* size); every recorded application must be the transform's function of    *)
+(* ITS OWN input alone - the value TransformValues.tla specifies for a       *)
+(* freshly constructed equal transform; the REJECT clause names the first   *)
+(* application that is not.                                                 *)
 (* One step per episode; REJECT lines name the failing clause; SUMMARY at  *)
 (* the end (verdicts are total).                                           *)
 (***************************************************************************)
@@ -17,7 +24,7 @@ Episodes == JsonDeserialize(IOEnv.TRACE_FILE)
 NEp == Len(Episodes)
 
 VARIABLES ep, nAcc, nRej
-tvars == <<P, phase, call, scn, ep, nAcc, nRej>>
+tvars == <<P, phase, call, scn, hist, ep, nAcc, nRej>>
 
 E == Episodes[ep]
 
@@ -27,14 +34,23 @@ E == Episodes[ep]
 \* the result (result, resultK); by linearity both parts must be the specified result on v resp. K.
 DtypeClause == IF \A i \in DOMAIN E.rdt : E.rdt[i] = OutDtype(E.kind, E.dt) THEN "none" ELSE "result_element_type"
 
-JacClauseOn(ct, result) ==
+JacClauseFor(kind, m, ct, result) ==
     LET J   == [o \in Range(E.outs) |-> ct[CHOOSE i \in DOMAIN E.outs : E.outs[i] = o]]
-        exp == JacT(E.prog, E.ins, J, E.m)
+        exp == JacT(E.prog, E.ins, J, m)
         bad == {i \in DOMAIN E.ins : result[i] # exp[E.ins[i]]}
     IN  IF ~WellFormed(E.prog) THEN "malformed_program_in_log"
         ELSE IF bad = {} THEN "none"
-        ELSE IF E.kind = "grad" THEN "grad_is_not_the_vector_jacobian_product"
+        ELSE IF kind = "grad" THEN "grad_is_not_the_vector_jacobian_product"
+        ELSE IF \E i \in DOMAIN E.ins : Len(result[i]) # m THEN "jac_row_count_is_not_the_row_count_of_its_batch_of_cotangents"
         ELSE "jac_row_is_not_the_vector_jacobian_product_of_its_cotangent_row"
+JacClauseOn(ct, result) == JacClauseFor(E.kind, E.m, ct, result)
+\* Aggregate(weights w, key_order = ins) o Jac: every input receives its slice of w^T [J_1 .. J_n]
+AggJacClauseFor(m, ct, w, result) ==
+    LET J   == [o \in Range(E.outs) |-> ct[CHOOSE i \in DOMAIN E.outs : E.outs[i] = o]]
+        exp == AggT(E.ins, Sizes(E.prog), JacT(E.prog, E.ins, J, m), w)
+    IN  IF ~WellFormed(E.prog) THEN "malformed_program_in_log"
+        ELSE IF Len(w) # m THEN "aggregator_received_a_matrix_of_another_row_count"
+        ELSE IF \A i \in DOMAIN E.ins : result[i] = exp[E.ins[i]] THEN "none" ELSE "aggregate_of_jac_slice"
 
 DiagClauseOn(input, result) ==
     LET g   == [k \in DOMAIN E.sizes |-> input[k]]
@@ -50,10 +66,37 @@ StackClauseOn(members, result) ==
     IN  IF DOMAIN got # DOMAIN exp THEN "stack_keys_are_not_the_union"
         ELSE IF \A k \in DOMAIN exp : got[k] = exp[k] THEN "none" ELSE "stack_value"
 
-AggClauseOn(input, result) ==
+AggClauseFor(w, input, result) ==
     LET J   == [k \in DOMAIN E.sizes |-> input[k]]
-        exp == AggT(E.order, E.sizes, J, E.w)
+        exp == AggT(E.order, E.sizes, J, w)
     IN  IF \A k \in DOMAIN E.sizes : result[k] = exp[k] THEN "none" ELSE "aggregate_slice"
+AggClauseOn(input, result) == AggClauseFor(E.w, input, result)
+\* Stack over members Select(ks[i]) of the input dictionary
+StackSelClauseOn(input, result) ==
+    LET g   == [k \in DOMAIN E.sizes |-> input[k]]
+        mem == [i \in DOMAIN E.ks |-> SelectT(g, Range(E.ks[i]))]
+        exp == StackT(mem, E.sizes)
+        got == [k \in {result[i].k : i \in DOMAIN result} |->
+                  result[CHOOSE i \in DOMAIN result : result[i].k = k].rows]
+    IN  IF DOMAIN got # DOMAIN exp THEN "stack_keys_are_not_the_union"
+        ELSE IF \A k \in DOMAIN exp : got[k] = exp[k] THEN "none" ELSE "stack_value"
+
+\* ------------------------------------------------------------------ histories of one object
+AppValue(a) == CASE E.obj \in {"jac", "grad"} -> JacClauseFor(E.obj, a.m, a.ct, a.result)
+                 [] E.obj = "aggjac" -> AggJacClauseFor(a.m, a.ct, a.w, a.result)
+                 [] E.obj = "diag"   -> DiagClauseOn(a.input, a.result)
+                 [] E.obj = "stack"  -> StackSelClauseOn(a.input, a.result)
+                 [] OTHER            -> AggClauseFor(a.w, a.input, a.result)
+AppClause(a) == LET c == AppValue(a) IN
+                IF c # "none" THEN c
+                ELSE IF \A i \in DOMAIN a.rdt : a.rdt[i] = OutDtype(E.obj, E.dt) THEN "none" ELSE "result_element_type"
+HistClause ==
+    LET bad == {n \in DOMAIN E.apps : AppClause(E.apps[n]) # "none"} IN
+    IF bad = {} THEN "none"
+    ELSE LET n == CHOOSE x \in bad : \A y \in bad : x <= y
+             c == AppClause(E.apps[n])
+         IN  IF c = "malformed_program_in_log" THEN c
+             ELSE "application_" \o ToString(n) \o "_of_one_object_is_not_the_function_of_its_own_input:" \o c
 
 ValueClause == CASE E.kind \in {"jac", "grad"} -> JacClauseOn(E.ct, E.result)
                  [] E.kind = "diag"  -> DiagClauseOn(E.input, E.result)
@@ -64,12 +107,13 @@ PrecClause == CASE E.kind \in {"jac", "grad"} -> JacClauseOn(E.ctK, E.resultK)
                 [] E.kind = "stack" -> StackClauseOn(E.membersK, E.resultK)
                 [] OTHER            -> AggClauseOn(E.inputK, E.resultK)
 
-Clause == IF ValueClause # "none" THEN ValueClause
+Clause == IF E.kind = "hist" THEN HistClause
+          ELSE IF ValueClause # "none" THEN ValueClause
           ELSE IF DtypeClause # "none" THEN DtypeClause
           ELSE IF E.prec = 1 /\ PrecClause # "none" THEN "precision_" \o PrecClause
           ELSE "none"
 
-TInit0 == /\ P = <<>> /\ phase = "trace" /\ call = NoCall /\ scn = [kind |-> "none"]
+TInit0 == /\ P = <<>> /\ phase = "trace" /\ call = NoCall /\ scn = [kind |-> "none"] /\ hist = <<>>
           /\ ep = 1 /\ nAcc = 0 /\ nRej = 0
 
 TStep == /\ ep <= NEp
@@ -78,12 +122,12 @@ TStep == /\ ep <= NEp
               /\ nAcc' = nAcc + (IF c = "none" THEN 1 ELSE 0)
               /\ nRej' = nRej + (IF c = "none" THEN 0 ELSE 1)
          /\ ep' = ep + 1
-         /\ UNCHANGED <<P, phase, call, scn>>
+         /\ UNCHANGED <<P, phase, call, scn, hist>>
 
 TDone == /\ ep = NEp + 1
          /\ PrintT(<<"SUMMARY", ToJson([episodes |-> NEp, accepted |-> nAcc, rejected |-> nRej])>>)
          /\ ep' = NEp + 2
-         /\ UNCHANGED <<P, phase, call, scn, nAcc, nRej>>
+         /\ UNCHANGED <<P, phase, call, scn, hist, nAcc, nRej>>
 
 TNext == TStep \/ TDone
 TraceSpec == TInit0 /\ [][TNext]_tvars
